@@ -6,8 +6,10 @@ inherit b,c; b may inherit c) living in the master, the overlay, both or nowhere
 overlay: `md5` (metadata/md5-cache: ebuild md5 + eclass md5s) or `flat` (flat_hash: ebuild mtime + eclass dir+mtime).
 A history is a hypothesis list of JSON ops: rewrite ebuild (new variant / inherit list), touch ebuild, write eclass
 (create, overwrite, shadow in the other repo), touch / remove eclass, move eclass between the two repos, strip the INHERIT
-line from the cache entry, no-op. After the initial population and after EVERY op every package's metadata is read through a
-completely fresh repo object graph (real bash daemon for every regeneration).
+line from the cache entry, no-op. Every op carries a read plan: an ordered subset of the 2-3 packages that is read right
+after it through ONE fresh repo object graph (a "session"; real bash daemon for every regeneration), so packages that were
+not read keep stale entries and entries recording old and new eclass states coexist inside later sessions. Two scripted
+deterministic histories (one per cache kind, every op kind, both read orders) run before the generated ones.
 
 Oracle (model kept side by side, nothing of pkgcore's cache code is consulted):
   * reference validity predicate: an entry is valid iff it exists, records the ebuild's current checksum (md5) / mtime (flat),
@@ -28,7 +30,8 @@ Simplifications vs DESIGN.md: plain hypothesis op lists instead of a RuleBasedSt
 mtime validation) are not generated; after a read that must fail the harness removes a possibly left-over entry itself
 (the statement says nothing about it); a package that is uncached and unsourceable is read once per tree state, not after
 every op (each such read is a plain failing regeneration costing a daemon respawn). One regeneration costs about one CPU
-second on this host, so the quick tier is 112 histories (~1000 reads).
+second on this host, so the quick tier is 2 scripted + 28 generated long histories; after a recorded violation the cache is
+wiped (model and disk) and the history goes on.
 """
 from __future__ import annotations
 
@@ -58,22 +61,24 @@ LEVEL_NOTE = (
     "mtimes. Throughput-bound by the real daemon; no proof of absence."
 )
 RULE = (
-    "histories = {cache kind md5|flat, initial placement of eclasses a,b,c in master/overlay, 1-2 ebuilds, 3-9 ops}; one "
-    "evaluation = one metadata read of one package after one op; non-trivial = an entry for the package existed before the "
-    "read and the op touched its ebuild, its cache entry or an eclass in its old/new inherit closure (so validity had to be "
-    "decided, either way); distinct = distinct (cache kind, closure with providing repo and variant, op, model verdict+reasons)"
+    "histories = {cache kind md5|flat, initial placement of eclasses a,b,c in master/overlay, 2-3 ebuilds, 12-24 ops each with "
+    "an ordered partial read plan executed through one repo object} + 2 scripted histories; one evaluation = one metadata "
+    "read of one package; non-trivial = an entry for the package existed before the read and some op since its last read "
+    "touched its ebuild, its cache entry or an eclass in its old/new inherit closure (so validity had to be decided, either "
+    "way); distinct = distinct (cache kind, closure with providing repo and variant, ops since last read, verdict+reasons, "
+    "first/later in session)"
 )
 ASSUMPTIONS = [
     "metadata generation is a deterministic function of the ebuild text and the resolved eclass texts (memoised reference)",
     "file mtimes are integers chosen by the harness (flat_hash stores whole seconds)",
-    "every read uses fresh repository / cache / eclass-cache objects (pkgcore caches directory listings and checksums per object)",
+    "every session (the reads after one op) uses fresh repository / cache / eclass-cache objects; no edit happens inside a session",
     "a stripped INHERIT line must force regeneration (observable: cached metadata would lack INHERIT, cache-less has it)",
     "an ebuild (or eclass) inheriting an eclass that exists in neither repository cannot be sourced (model verdict)",
 ]
 BUDGET = {"quick": 60, "thorough": 900}
 
 NAMES = ("a", "b", "c")
-PKGS = ("p1", "p2")
+PKGS = ("p1", "p2", "p3")
 CLOCK0 = 1_600_000_000
 FAIL = "<sourcing-fails>"
 INTERNAL = {"_eclasses_", "_chf_", "_md5_", "_mtime_"}
@@ -120,6 +125,16 @@ def _ebuild_spec(existing=NAMES):
     return st.fixed_dictionaries({"v": st.integers(1, 3), "inh": st.one_of(some, some, some, some, st.just([]))})
 
 
+def _reads():
+    """ordered subset of the packages to read after an op, through ONE repo object (a 'session'); packages that do not
+    exist in the world are dropped at run time. Partial reads make entries of different staleness coexist."""
+    return st.one_of(
+        st.permutations(PKGS).map(list),                                             # everything, some order
+        st.permutations(PKGS).flatmap(lambda l: st.integers(1, 2).map(lambda n: list(l)[:n])),   # a strict subset
+        st.permutations(PKGS).flatmap(lambda l: st.integers(1, 2).map(lambda n: list(l)[:n])),
+    )
+
+
 def _op():
     name = st.sampled_from(NAMES)
     repo = st.sampled_from(["m", "o"])
@@ -128,22 +143,23 @@ def _op():
     def ecl(n, r, spec):
         return {"op": "eclass", "name": n, "repo": r, "v": spec["v"], "inh": spec["inh"]}
 
-    return st.one_of(
+    ecl_write = name.flatmap(lambda n: st.builds(lambda r, s: ecl(n, r, s), repo, _eclass_spec(n)))
+    mv = st.builds(lambda n, r: {"op": "mv_eclass", "name": n, "src": r}, name, repo)
+    base = st.one_of(
         st.builds(lambda p, s: {"op": "ebuild", "pkg": p, "v": s["v"], "inh": s["inh"]}, pkg, _ebuild_spec()),
         pkg.map(lambda p: {"op": "touch_ebuild", "pkg": p}),
-        name.flatmap(lambda n: st.builds(lambda r, s: ecl(n, r, s), repo, _eclass_spec(n))),
-        name.flatmap(lambda n: st.builds(lambda r, s: ecl(n, r, s), repo, _eclass_spec(n))),
+        ecl_write, ecl_write, ecl_write,
         st.builds(lambda n, r: {"op": "touch_eclass", "name": n, "repo": r}, name, repo),
         st.builds(lambda n, r: {"op": "rm_eclass", "name": n, "repo": r}, name, repo),
-        st.builds(lambda n, r: {"op": "mv_eclass", "name": n, "src": r}, name, repo),
-        st.builds(lambda n, r: {"op": "mv_eclass", "name": n, "src": r}, name, repo),
+        mv, mv,
         pkg.map(lambda p: {"op": "strip_inherit", "pkg": p}),
-        st.just({"op": "noop"}),
+        st.just({"op": "noop"}), st.just({"op": "noop"}),
     )
+    return st.builds(lambda o, r: dict(o, reads=r), base, _reads())
 
 
 @st.composite
-def worlds(draw, max_ops=9):
+def worlds(draw, min_ops=12, max_ops=24):
     kind = draw(st.sampled_from(["md5", "flat"]))
     where = {n: draw(st.sampled_from(["m", "m", "m", "o", "o", "both", "both", "none"])) for n in NAMES}
     # an ebuild whose eclass never existed cannot be sourced at all (every read fails, nothing is cached): initially
@@ -160,10 +176,10 @@ def worlds(draw, max_ops=9):
             # a shadowing copy is often textually identical to the master's (then md5 validation must not care)
             d["o"] = dict(d["m"]) if ("m" in d and draw(st.booleans())) else draw(_eclass_spec(n, existing))
         eclasses[n] = d
-    pkgs = {"p1": draw(_ebuild_spec(existing))}
+    pkgs = {"p1": draw(_ebuild_spec(existing)), "p2": draw(_ebuild_spec(existing))}
     if draw(st.booleans()):
-        pkgs["p2"] = draw(_ebuild_spec(existing))
-    ops = draw(st.lists(_op(), min_size=3, max_size=max_ops))
+        pkgs["p3"] = draw(_ebuild_spec(existing))
+    ops = draw(st.lists(_op(), min_size=min_ops, max_size=max_ops))
     return {"kind": kind, "eclasses": eclasses, "pkgs": pkgs, "ops": ops}
 
 
@@ -204,12 +220,35 @@ class World:
         self.entry = {}    # pkg -> None | {"chf":…, "ecl": {name: rec}, "has_inherit": bool}
         self.memo = {}
         self.failed_reads = set()   # content signatures for which a read without entry already failed as expected
+        self.since = {}             # pkg -> {"touched": set of tags, "ops": [op kinds]} since the package was last read
+        self.last_closure = {}      # pkg -> eclass names in its closure / recorded in its entry when it was last read
         for n in NAMES:
             for r, s in sorted(spec["eclasses"].get(n, {}).items()):
                 self._write_eclass(r, n, s)
         for p, s in sorted(spec["pkgs"].items()):
             self._write_ebuild(p, s)
             self.entry[p] = None
+            self.since[p] = {"touched": set(), "ops": []}
+            self.last_closure[p] = self.closure(p)[0]
+
+    def reset_cache(self):
+        """after a recorded violation model and disk may disagree about cache entries: drop them all and go on"""
+        for p in self.ebuilds:
+            self.entry[p] = None
+            try:
+                os.unlink(self.entry_path(p))
+            except FileNotFoundError:
+                pass
+
+    def note_op(self, op, touched):
+        for p in self.ebuilds:
+            self.since[p]["touched"] |= touched
+            self.since[p]["ops"].append(op["op"])
+
+    def mark_read(self, p):
+        self.since[p] = {"touched": set(), "ops": []}
+        e = self.entry.get(p)
+        self.last_closure[p] = self.closure(p)[0] | set(e["ecl"] if e else ())
 
     def close(self):
         shutil.rmtree(self.root, ignore_errors=True)
@@ -373,11 +412,16 @@ class World:
         raise core.HarnessError(f"unknown op {op!r}")
 
     # ---- system under test
-    def _fetch(self, p, cache):
+    def session(self):
+        """one fresh repo object graph with the world's cache: what one pkgcore process works with"""
+        return ER.open_repo(self.o, self.m, cache=self.kind, flat_location=self.flat)
+
+    def _fetch(self, p, cache, repo=None):
         from pkgcore.package.errors import MetadataException
 
         with ebd.alarm(180, "metadata read"):
-            repo = ER.open_repo(self.o, self.m, cache=cache, flat_location=self.flat)
+            if repo is None:
+                repo = ER.open_repo(self.o, self.m, cache=cache, flat_location=self.flat)
             pkg = repo.package_class("cat", p, "1")
             try:
                 return dict(pkg.data)
@@ -400,10 +444,10 @@ class World:
             self.ctx.count("reference_regenerations")
         return _MEMO[sig]
 
-    def read(self, p):
-        """-> (data or FAIL, number of regenerations it took)"""
+    def read(self, p, repo=None):
+        """-> (data or FAIL, number of regenerations it took); `repo`: the session's repo object (default: a fresh one)"""
         before = _REGEN["n"]
-        d = self._fetch(p, self.kind)
+        d = self._fetch(p, self.kind, repo)
         return d, _REGEN["n"] - before
 
     def disk_entry(self, p):
@@ -427,7 +471,8 @@ def public(d):
 
 # ---------------------------------------------------------------------------- oracle for one read
 
-def relation(world, p, touched, old_closure):
+def relation(world, p):
+    touched = world.since[p]["touched"]
     if not touched:
         return "nothing"
     if ("p:" + p) in touched:
@@ -436,33 +481,39 @@ def relation(world, p, touched, old_closure):
         return "own-entry"
     new_closure, missing = world.closure(p)
     names = {t[2:] for t in touched if t.startswith("e:")}
-    if names & (old_closure | new_closure | ({missing} if missing else set())):
+    if names & (world.last_closure[p] | new_closure | ({missing} if missing else set())):
         return "eclass-in-closure"
     return "unrelated"
 
 
-def check_read(ctx, world, case, step, op, p, touched, old_closure):
-    """one oracle evaluation; returns False when a violation was recorded (the history stops: model and disk may
-    have diverged)"""
+def check_read(ctx, world, spec, step, op, p, repo, pos):
+    """one oracle evaluation: package `p` read as the `pos`-th read of the session `repo` after step `step`.
+    Returns False when a violation was recorded (the caller resets the cache: model and disk may have diverged)."""
     reasons = world.staleness(p)
     had_entry = world.entry.get(p) is not None
-    rel = relation(world, p, touched, old_closure)
+    rel = relation(world, p)
+    pending = [k for k in world.since[p]["ops"] if k != "noop"]
     opk = op["op"] if op else "populate"
     verdict = "stale" if reasons else "valid"
     primary = reasons[0] if reasons else "-"
-    classes = [f"kind:{world.kind}", f"{verdict}:{opk}:{rel}", f"reason:{primary}"]
+    classes = [f"kind:{world.kind}", f"{verdict}:{rel}", f"reason:{primary}", f"session-position:{min(pos, 2)}",
+               f"ops-since-last-read:{min(len(world.since[p]['ops']), 4)}"]
+    if rel != "nothing":
+        classes.append(f"{verdict}:{pending[-1] if pending else opk}:{rel}")
     nontrivial = had_entry and rel in ("own-ebuild", "own-entry", "eclass-in-closure")
-    key = core.jdump([world.kind, world.closure_signature(p), op, rel, reasons])
-    sample = {"kind": world.kind, "step": step, "op": op, "pkg": p, "model": verdict, "reasons": reasons,
-              "closure": world.closure_signature(p)}
+    key = core.jdump([world.kind, world.closure_signature(p), pending, rel, reasons, min(pos, 1)])
+    sample = {"kind": world.kind, "step": step, "op": op, "pkg": p, "session_position": pos, "model": verdict,
+              "reasons": reasons, "ops_since_last_read": world.since[p]["ops"], "closure": world.closure_signature(p)}
     ctx.case(sample, nontrivial=nontrivial, classes=classes, key=key)
+    case = dict(spec, ops=spec["ops"][:step])     # the history up to and including this step reproduces the read
 
     ok = True
 
     def bad(bucket, msg):
         nonlocal ok
         ok = False
-        ctx.violation(bucket, case, f"step {step} ({core.jdump(op)}) pkg {p} [{world.kind}]: {msg}")
+        ctx.violation(bucket, case, f"step {step} ({core.jdump(op)}) pkg {p} [{world.kind}], read #{pos + 1} of its "
+                                    f"session, ops since its last read {world.since[p]['ops']}: {msg}")
 
     exp = world.expected(p)
     sig = world.content_signature(p)
@@ -470,15 +521,17 @@ def check_read(ctx, world, case, step, op, p, touched, old_closure):
         # nothing cached, tree still unsourceable and unchanged for this package: the read is the same plain failing
         # regeneration as before (each one costs a daemon restart) -- not repeated
         ctx.count("skipped_repeated_unsourceable_reads")
+        world.mark_read(p)
         return True
-    got, regens = world.read(p)
+    got, regens = world.read(p, repo)
     if exp == FAIL and not had_entry and got == FAIL:
         world.failed_reads.add(sig)
 
+    where = "first-in-session" if pos == 0 else "later-in-session"
     if regens and not reasons:
-        bad(f"regenerated-valid-entry:{world.kind}:{opk}:{rel}", "entry is valid by the model but metadata was regenerated")
+        bad(f"regenerated-valid-entry:{world.kind}:{rel}", "entry is valid by the model but metadata was regenerated")
     if not regens and reasons:
-        bad(f"stale-entry-used:{world.kind}:{primary}", f"entry is stale ({reasons}) but no regeneration happened")
+        bad(f"stale-entry-used:{world.kind}:{primary}:{where}", f"entry is stale ({reasons}) but no regeneration happened")
     if got == FAIL or exp == FAIL:
         if got != exp:
             if exp == FAIL:
@@ -511,11 +564,12 @@ def check_read(ctx, world, case, step, op, p, touched, old_closure):
                     if problems:
                         bad(f"entry-not-replaced:{world.kind}:{problems[0][0]}", "; ".join(m for _, m in problems))
             if ok:
-                got2, regens2 = world.read(p)
+                got2, regens2 = world.read(p)       # a different, fresh repo object
                 if regens2:
                     bad(f"reread-regenerated:{world.kind}", "second read right after a regeneration regenerated again")
                 elif got2 == FAIL or public(got2) != exp:
                     bad(f"reread-differs:{world.kind}", f"second read returned {got2 if got2 == FAIL else public(got2)} expected {exp}")
+    world.mark_read(p)
     return ok
 
 
@@ -554,20 +608,22 @@ def run_history(ctx, spec):
     _install_counter()
     world = World(ctx, spec)
     try:
-        def read_all(step, op, touched, old):
-            for p in sorted(world.ebuilds):
-                if not check_read(ctx, world, spec, step, op, p, touched, old[p]):
-                    return False
-            return True
+        def session(step, op, reads):
+            repo = world.session()
+            for pos, p in enumerate(reads):
+                if not check_read(ctx, world, spec, step, op, p, repo, pos):
+                    ctx.count("cache_resets_after_violation")
+                    world.reset_cache()
+                    repo = world.session()
 
-        old = {p: world.closure(p)[0] for p in world.ebuilds}
-        if not read_all(0, None, set(), old):
-            return
+        session(0, None, sorted(world.ebuilds))        # populate
         for i, op in enumerate(spec["ops"], 1):
-            old = {p: world.closure(p)[0] | set(world.entry[p]["ecl"] if world.entry.get(p) else ()) for p in world.ebuilds}
-            touched = world.apply(op)
-            if not read_all(i, op, touched, old):
+            if ctx.out_of_time():
+                ctx.count("histories_cut_by_budget")
                 return
+            world.note_op(op, world.apply(op))
+            reads = [p for p in op.get("reads", sorted(world.ebuilds)) if p in world.ebuilds]
+            session(i, op, reads)
     except ebd.EbdHang as e:
         ER.shutdown_daemons()
         raise core.HarnessError(f"daemon hang: {e}")
@@ -583,22 +639,70 @@ def guarded_history(ctx, spec):
 
 # ---------------------------------------------------------------------------- runner interface
 
+def scripted_history(kind):
+    """deterministic history run first in every tier: every op kind at least once, partial reads in both orders, so that
+    entries recording old and new eclass states coexist inside one session (no randomness involved)"""
+    def E(v, inh=()):
+        return {"v": v, "inh": list(inh)}
+
+    def ecl(n, r, v, inh=(), reads=()):
+        return {"op": "eclass", "name": n, "repo": r, "v": v, "inh": list(inh), "reads": list(reads)}
+
+    ops = [
+        ecl("b", "m", 2, reads=["p1"]),                                              # shared by p1,p2 (via a) and p3
+        {"op": "noop", "reads": ["p1", "p2", "p3"]},                                  # refreshed p1 first, stale p2,p3 after
+        {"op": "touch_eclass", "name": "a", "repo": "m", "reads": ["p2"]},
+        {"op": "noop", "reads": ["p2", "p1"]},
+        {"op": "mv_eclass", "name": "c", "src": "o", "reads": ["p2"]},               # same text lands in the master
+        ecl("c", "o", 2, reads=["p3", "p2"]),                                         # shadow with different text
+        {"op": "strip_inherit", "pkg": "p1", "reads": ["p3", "p1"]},
+        {"op": "touch_ebuild", "pkg": "p3", "reads": ["p3"]},
+        {"op": "ebuild", "pkg": "p1", "v": 2, "inh": ["a"], "reads": ["p2"]},
+        {"op": "noop", "reads": ["p2", "p1", "p3"]},
+        {"op": "mv_eclass", "name": "a", "src": "m", "reads": ["p1"]},               # a now provided by the overlay
+        {"op": "noop", "reads": ["p1", "p2"]},
+        {"op": "rm_eclass", "name": "c", "repo": "o", "reads": ["p2"]},               # falls back to the master copy
+        ecl("b", "o", 2, reads=["p3"]),                                               # shadow with identical text
+        {"op": "noop", "reads": ["p3", "p1", "p2"]},
+        {"op": "rm_eclass", "name": "b", "repo": "o", "reads": ["p3"]},
+        {"op": "rm_eclass", "name": "b", "repo": "m", "reads": ["p3"]},               # b is gone: unsourceable
+        ecl("b", "m", 3, reads=["p1"]),
+        {"op": "noop", "reads": ["p3", "p2", "p1"]},
+    ]
+    return {"kind": kind,
+            "eclasses": {"a": {"m": E(1, ["b"])}, "b": {"m": E(1)}, "c": {"m": E(1), "o": E(1)}},
+            "pkgs": {"p1": E(1, ["a"]), "p2": E(1, ["a", "c"]), "p3": E(1, ["b"])},
+            "ops": ops}
+
+
 def plan(tier, seed):
-    if tier == "quick":
-        return [{"task": "hyp", "examples": 7} for _ in range(16)]
-    return [{"task": "hyp", "examples": 90} for _ in range(16)]
+    # cost: about one CPU second per regeneration, so long histories (the initial population is paid once) and the
+    # deterministic high-yield histories first; each task = one worker process = one daemon
+    tasks = [{"task": "scripted", "kind": "md5"}, {"task": "scripted", "kind": "flat"}]
+    n, per = (14, 2) if tier == "quick" else (30, 8)
+    tasks += [{"task": "hyp", "examples": per} for _ in range(n)]
+    return tasks
 
 
 def run_task(ctx, task, **kw):
-    if task != "hyp":
-        raise core.HarnessError(f"unknown task {task}")
     ebd.ensure_generated()
     try:
-        def one(w):
-            if not ctx.out_of_time():      # budget guard per history (a chunk always starts with hypothesis' minimal
-                guarded_history(ctx, w)    # example, so chunks are kept large and the guard sits here instead)
+        if task == "scripted":
+            guarded_history(ctx, scripted_history(kw["kind"]))
+        elif task == "hyp":
+            seen = [0]
 
-        core.hyp_run(ctx, worlds(), one, kw["examples"], chunk=kw["examples"])
+            def one(w):
+                seen[0] += 1
+                if seen[0] == 1:
+                    return                   # a hypothesis run always starts with its minimal example (trivial world)
+                if not ctx.out_of_time():    # budget guard per history (and per op inside run_history)
+                    guarded_history(ctx, w)
+
+            n = kw["examples"] + 1
+            core.hyp_run(ctx, worlds(), one, n, chunk=n)
+        else:
+            raise core.HarnessError(f"unknown task {task}")
     finally:
         ER.shutdown_daemons()
 
@@ -612,7 +716,8 @@ def replay(ctx, case):
 
 
 def shrink_case(ctx, bucket, case):
-    """drop ops / the second package / eclass copies while the bucket is still reported (bounded daemon work)"""
+    """drop ops / packages / eclass copies while the bucket is still reported (bounded daemon work; the case already
+    ends at the violating step)"""
     import copy
 
     def has_bucket(w):
@@ -625,24 +730,20 @@ def shrink_case(ctx, bucket, case):
 
     ebd.ensure_generated()
     cur = copy.deepcopy(case)
-    budget = 40
+    budget = 8
     try:
         changed = True
         while changed and budget > 0:
             changed = False
             cands = []
-            for i in range(len(cur["ops"]) - 1, -1, -1):
+            for i in range(len(cur["ops"]) - 2, -1, -1):
                 c = copy.deepcopy(cur)
                 del c["ops"][i]
                 cands.append(c)
-            if "p2" in cur["pkgs"]:
-                for drop in ("p2", "p1"):
+            if len(cur["pkgs"]) > 1:
+                for drop in sorted(cur["pkgs"], reverse=True):
                     c = copy.deepcopy(cur)
-                    if drop == "p1":
-                        c["pkgs"] = {"p1": c["pkgs"]["p2"]}
-                        c["ops"] = [dict(o, pkg="p1") if o.get("pkg") == "p2" else o for o in c["ops"] if o.get("pkg") != "p1"]
-                    else:
-                        del c["pkgs"]["p2"]
+                    del c["pkgs"][drop]
                     cands.append(c)
             for n in NAMES:
                 for r in list(cur["eclasses"].get(n, {})):
